@@ -217,7 +217,7 @@ def gen_ni_history(seed):
     grids = [rng.choice(gcfgs) for _ in range(rng.randint(1, 2))]
     ops = []
     for _ in range(rng.randint(3, 8)):
-        c = rng.weighted([("call", 8), ("reset", 1), ("build", 1), ("regrid", 1)])
+        c = rng.weighted([("call", 8), ("reset", 1), ("build", 1), ("regrid", 1), ("regrid_inplace", 2 if nmol > 1 else 0)])
         if c == "call":
             nset = rng.weighted([(1, 4), (2, 3), (3, 2)])
             ops.append(
@@ -237,6 +237,9 @@ def gen_ni_history(seed):
             )
         elif c == "regrid":
             ops.append({"op": "regrid", "mol": rng.below(nmol), "grid": rng.below(len(grids))})
+        elif c == "regrid_inplace":
+            a = rng.below(nmol)
+            ops.append({"op": "regrid_inplace", "from_mol": a, "to_mol": (a + 1 + rng.below(nmol - 1)) % nmol, "grid": rng.below(len(grids))})
         else:
             ops.append({"op": c, "model": rng.below(nm), "mol": rng.below(nmol)})
     if not any(o["op"] == "call" and len(o["dms"]) > 1 for o in ops) and rng.chance(0.6):
@@ -294,6 +297,18 @@ def exec_ni_history(hist, rp):
                     else:
                         ks._numint.build(mol)
                     stats["generator_drops"] += 1
+            continue
+        if c == "regrid_inplace":
+            # the *same* grids objects are re-targeted to another molecule and rebuilt in place
+            # (what Grids.reset(mol) + build() do in a geometry scan), so a later call sees an
+            # unchanged grids identity but a different molecule
+            mol2 = U.mol(op["to_mol"])
+            for key in [k for k in gridobjs if k[1] == op["from_mol"] and k[2] == op["grid"]]:
+                g = gridobjs.pop(key)
+                g.reset(mol2)
+                g.build(with_non0tab=False)
+                gridobjs[(key[0], op["to_mol"], key[2])] = g
+                stats["grids_rebuilt_in_place"] += 1
             continue
         if c == "regrid":
             # replace the long-lived grids objects of this (mol, grid) by rebuilt-but-equal ones
@@ -839,6 +854,7 @@ def coverage(done, tier):
             "uks_calls": tot["calls_uks"],
             "rks_calls": tot["calls_rks"],
             "generator_drops_reset_or_build": tot["generator_drops"],
+            "grids_rebuilt_in_place_for_other_molecule": tot["grids_rebuilt_in_place"],
             "alias_readonly": tot["alias_readonly"],
             "alias_fortran_order": tot["alias_fortran"],
             "alias_same_array_both_spins": tot["alias_sameab"],
